@@ -475,7 +475,18 @@ def gen_csv(rnd):
         if t == 'bool':
             return 'true' if v else 'false'
         return ref_string(v)
-    lines = [','.join(names)] + [(',' + rnd.choice(['', ' '])).join(cell(v, t, i) for i, (v, t) in enumerate(zip(r, types))) for r in rows]
+    def cells_of(r):
+        cs = [cell(v, t, i) for i, (v, t) in enumerate(zip(r, types))]
+        if rnd.random() < 0.3:
+            # a writer that leaves trailing null cells out: a record shorter than the header (its missing cells are null)
+            n = len(r)
+            while n > 1 and r[n - 1] is None:
+                n -= 1
+            cs = cs[:n]
+            if not ''.join(cs).strip():
+                cs[0] = 'null'          # (an empty line is not a record)
+        return cs
+    lines = [','.join(names)] + [(',' + rnd.choice(['', ' '])).join(cells_of(r)) for r in rows]
     k = rnd.randint(1, len(lines))
     parts = ['\n'.join(lines)] if rnd.random() < 0.5 or k >= len(lines) else ['\n'.join(lines[:k]), rnd.choice(['\n', '\r\n']).join(lines[k:])]
     return names, types, rows, parts
